@@ -6,9 +6,15 @@
 package main
 
 import (
+	"bytes"
+	"context"
 	"flag"
 	"fmt"
 	"math"
+	"os"
+	"os/exec"
+	"sync"
+	"time"
 	"sort"
 	"strconv"
 	"strings"
@@ -860,18 +866,163 @@ var witnesses = []witness{
 	{"F-C28g", "pos_inf", "Inf ^ 2"},
 }
 
+// ---------------------------------------------------------------- concurrency stream
+//
+// "the parser never panics on arbitrary input" also when ParseExpr is used from several goroutines at once (the API
+// server does). A data race inside the parser ends in a fatal runtime error ("concurrent map read and map write")
+// that no recover() can catch, so this stream runs in a CHILD process: concWorkers goroutines parse, at the same
+// time and in the same order, texts whose keywords / aggregators / functions are written in upper/lower-case
+// spellings this process has never seen, mixed with ordinary generated texts. The parent observes the child's exit
+// status and stderr.
+
+const concWorkers = 16
+
+var concWords = []string{"sum", "without", "by", "offset", "bool", "inf", "drop_empty_series", "and", "or", "unless", "group_left",
+	"group_right", "on", "ignoring", "topk", "count_values", "nan", "start", "end", "atan2", "default", "quantile", "avg", "stddev", "sort_desc", "dbag"}
+
+func spell(word string, mask uint64) string {
+	b := []byte(word)
+	bit := 0
+	for i, c := range b {
+		if c >= 'a' && c <= 'z' {
+			if mask&(1<<uint(bit%60)) != 0 {
+				b[i] = c - 32
+			}
+			bit++
+		}
+	}
+	return string(b)
+}
+
+func concTexts(seed uint64, rounds int) []string {
+	g := &gen{r: vu.NewRng(seed)}
+	texts := make([]string, 0, rounds)
+	for i := 0; i < rounds; i++ {
+		m := func() uint64 { return g.r.U64() | 1<<uint(g.r.Intn(3)) }
+		w := func(s string) string { return spell(s, m()) }
+		switch i % 5 {
+		case 0:
+			texts = append(texts, w("drop_empty_series")+"("+w("sum")+"(foo) "+w("without")+" (x)) > "+w("bool")+" "+w("inf"))
+		case 1:
+			texts = append(texts, w(g.pick("topk", "quantile", "count_values"))+" "+w("by")+" (a) (3, foo "+w("offset")+" 5m) "+w(g.pick("and", "or", "unless", "atan2", "default"))+" "+
+				w("on")+" (a) "+w(g.pick("group_left", "group_right"))+" (b) bar @ "+w(g.pick("start", "end"))+"()")
+		case 2:
+			texts = append(texts, w(concWords[g.r.Intn(len(concWords))])+" + "+w(g.pick("nan", "inf"))+" * "+w(g.pick("avg", "stddev", "sort_desc", "dbag"))+"(x) "+w("ignoring")+" (a) y")
+		case 3:
+			texts = append(texts, w(fnNames[g.r.Intn(len(fnNames))])+"("+w(concWords[g.r.Intn(len(concWords))])+"{a=\"b\"}[5m])")
+		default:
+			texts = append(texts, g.expr(2))
+		}
+	}
+	return texts
+}
+
+// the child: every goroutine parses (and prints) every text; any divergence between goroutines is reported on stdout
+func concWorker(seed uint64, rounds int) {
+	texts := concTexts(seed, rounds)
+	results := make([][]string, concWorkers)
+	var wg sync.WaitGroup
+	start := make(chan struct{})
+	for w := 0; w < concWorkers; w++ {
+		wg.Add(1)
+		go func(w int) {
+			defer wg.Done()
+			res := make([]string, len(texts))
+			<-start
+			for i, t := range texts {
+				p := parseSafe(t)
+				switch {
+				case p.panicked != "" || p.err == parser.VerifErrUnexpected():
+					res[i] = "PANIC"
+				case p.err != nil:
+					res[i] = "ERR"
+				default:
+					s, pp := printSafe(p.expr)
+					if pp != "" {
+						s = "PRINTPANIC"
+					}
+					res[i] = "OK " + s
+				}
+			}
+			results[w] = res
+		}(w)
+	}
+	close(start)
+	wg.Wait()
+	for i := range texts {
+		for w := 1; w < concWorkers; w++ {
+			if results[w][i] != results[0][i] || results[w][i] == "PANIC" || results[w][i] == "OK PRINTPANIC" {
+				fmt.Printf("DIVERGED %q: goroutine 0 -> %q, goroutine %d -> %q\n", texts[i], results[0][i], w, results[w][i])
+				os.Exit(3)
+			}
+		}
+	}
+	fmt.Printf("CONC-OK %d texts x %d goroutines\n", len(texts), concWorkers)
+}
+
+// the parent: one child per call; returns "" or what went wrong
+func runConcChild(seed uint64, rounds int) string {
+	self, err := os.Executable()
+	if err != nil {
+		return "cannot locate own executable: " + err.Error()
+	}
+	ctx, cancel := context.WithTimeout(context.Background(), 180*time.Second)
+	defer cancel()
+	cmd := exec.CommandContext(ctx, self, "-concworker", "-seed", strconv.FormatUint(seed, 10), "-rounds", strconv.Itoa(rounds))
+	var stdout, stderr bytes.Buffer
+	cmd.Stdout, cmd.Stderr = &stdout, &stderr
+	runErr := cmd.Run()
+	firstLine := func(b []byte, marker string) string {
+		for _, l := range strings.Split(string(b), "\n") {
+			if strings.Contains(l, marker) {
+				return strings.TrimSpace(l)
+			}
+		}
+		return ""
+	}
+	if l := firstLine(stderr.Bytes(), "fatal error"); l != "" {
+		return "child died: " + l
+	}
+	if l := firstLine(stderr.Bytes(), "DATA RACE"); l != "" {
+		return "child reports: " + l
+	}
+	if l := firstLine(stdout.Bytes(), "DIVERGED"); l != "" {
+		return l
+	}
+	if ctx.Err() != nil {
+		return "child timed out (deadlock?)"
+	}
+	if runErr != nil {
+		e := strings.TrimSpace(stderr.String())
+		if len(e) > 200 {
+			e = e[:200]
+		}
+		return "child exited abnormally: " + runErr.Error() + " " + strconv.QuoteToASCII(e)
+	}
+	if !bytes.Contains(stdout.Bytes(), []byte("CONC-OK")) {
+		return "child did not finish its texts"
+	}
+	return ""
+}
+
 func main() {
 	seed := flag.Uint64("seed", 1, "")
 	n := flag.Int("n", 3000, "")
 	out := flag.String("out", "", "")
+	isConcWorker := flag.Bool("concworker", false, "internal: run the concurrency stream's child")
+	rounds := flag.Int("rounds", 1500, "")
 	flag.Parse()
-	g := &gen{r: vu.NewRng(*seed)}
-	o := vu.NewOut(*out)
-	defer o.Close()
 	for k := range parser.Functions {
 		fnNames = append(fnNames, k)
 	}
 	sort.Strings(fnNames)
+	if *isConcWorker {
+		concWorker(*seed, *rounds)
+		return
+	}
+	g := &gen{r: vu.NewRng(*seed)}
+	o := vu.NewOut(*out)
+	defer o.Close()
 
 	seen := map[string]bool{}
 	var pool []string // accepted texts, sources of mutation
@@ -997,6 +1148,20 @@ func main() {
 	for _, s := range []string{"", " ", "foo", "1", "-1", "+Inf", "a + b * c ^ d ^ e", "-a ^ b", "(a)", "sum(a)", "sum by (a, b) (x)", "topk(3, x)",
 		"foo{a=\"b\"}[5m] offset 1h @ 1.5", "a and on (x) group_left (y) b", "# c\nfoo", "rate(x[5m])", "\"s\"", "{a=\"b\"}", "a - -1", "-(a)", "- - a", "2 ^ -5"} {
 		process(s, "seed", 0)
+	}
+	// concurrency stream (child processes; see above)
+	children := 3 + *n/12000
+	if children > 8 {
+		children = 8
+	}
+	for c := 0; c < children; c++ {
+		cseed := *seed*1000003 + uint64(c)*7919 + 17
+		in := fmt.Sprintf("concurrency: child #%d, %d goroutines x %d texts with fresh mixed-case keyword spellings (replay: <harness> -concworker -seed %d -rounds %d)", c, concWorkers, *rounds, cseed, *rounds)
+		problem := runConcChild(cseed, *rounds)
+		line := o.Case(in, "CSkip", true, "concurrency/child")
+		if problem != "" {
+			o.Fail("parser_crashes_under_concurrency", line, in+" :: "+problem)
+		}
 	}
 	for o.N < *n {
 		for len(queue) > 0 && o.N < *n {
